@@ -304,6 +304,40 @@ impl<T: Clone + Serialize + DeserializeOwned + Copy + Display> LpSolution<T> {
     }
 }
 
+/// Solves a model that has no variables: every row is a comparison between
+/// constants, so the model is infeasible as soon as one of them fails and
+/// otherwise its only "solution" is the constant objective (the offset).
+///
+/// Returns `None` when the model has variables.
+pub(crate) fn solve_variable_free_model<T>(
+    lp: &crate::transformers::LinearModel,
+) -> Option<Result<LpSolution<T>, SolverError>>
+where
+    T: Clone + Serialize + DeserializeOwned + Copy + Display,
+{
+    if !lp.variables().is_empty() || !lp.domain().is_empty() {
+        return None;
+    }
+    for constraint in lp.constraints() {
+        let rhs = constraint.rhs();
+        let holds = match constraint.constraint_type() {
+            Comparison::LessOrEqual => 0.0 <= rhs,
+            Comparison::GreaterOrEqual => 0.0 >= rhs,
+            Comparison::Equal => 0.0 == rhs,
+            Comparison::Less => 0.0 < rhs,
+            Comparison::Greater => 0.0 > rhs,
+        };
+        if !holds {
+            return Some(Err(SolverError::Infeasible));
+        }
+    }
+    Some(Ok(LpSolution::new(
+        vec![],
+        lp.objective_offset(),
+        IndexMap::new(),
+    )))
+}
+
 /// Finds variables in a domain that don't satisfy a validation condition.
 ///
 /// # Arguments
